@@ -1,6 +1,7 @@
 package props
 
 import (
+	"context"
 	"fmt"
 	"math"
 	"sort"
@@ -15,7 +16,10 @@ import (
 
 type C09Case struct {
 	Sc   Scenario `json:"scenario"`
-	Step string   `json:"terminal_step"` // A: adjust + apportion, B: full preparation + reproduction, C: plain NextEpoch
+	// A: adjust + apportion, B: full preparation + reproduction, C: plain NextEpoch, D: plain NextEpoch under options that make
+	// every offspring an exact copy of one parent (all mutation rates zero, no mating), so that the new generation shows which
+	// organisms were used as parents and how many offspring each species really produced
+	Step string `json:"terminal_step"`
 	// Retry: the turnover under check is first attempted under a context that ends after a few polls (survival threshold 1,
 	// so that nobody is removed by the failed attempt); the organisms are then evaluated again - to other values, as a noisy
 	// evaluator gives - and the terminal step judges the repeated turnover by those values
@@ -26,7 +30,7 @@ func GenC09() *rapid.Generator[C09Case] {
 	sg := genScenario(ScenarioCfg{MaxEpochs: pick(20, 45), FitnessKinds: []string{"constant", "uniform", "heavy", "dominant", "distinct", "stagnating", "sparse", "genome", "signed"},
 		Parallel: 0, MinPop: 4, DupIds: true})
 	return rapid.Custom(func(t *rapid.T) C09Case {
-		c := C09Case{Sc: sg.Draw(t, "scenario"), Step: rapid.SampledFrom([]string{"A", "A", "B", "B", "C"}).Draw(t, "terminal step")}
+		c := C09Case{Sc: sg.Draw(t, "scenario"), Step: rapid.SampledFrom([]string{"A", "A", "B", "B", "C", "D", "D"}).Draw(t, "terminal step")}
 		c.Sc.Opts.DropOffAge = rapid.IntRange(1, 8).Draw(t, "small dropoff age") // stagnation, purges and delta coding occur
 		c.Sc.Epochs--                                                            // the terminal step is the last turnover
 		if rapid.IntRange(0, 14).Draw(t, "one huge organism") == 3 {
@@ -80,6 +84,7 @@ func CheckC09(c C09Case, rec *Rec) error {
 		rec.Class("organisms start with non-unique genome ids")
 	}
 	ctx := opts.NeatContext()
+	curSpec := sc.Opts
 	exec := &genetics.SequentialPopulationEpochExecutor{}
 	assign := func(e int) {
 		n := len(pop.Organisms)
@@ -94,6 +99,7 @@ func CheckC09(c C09Case, rec *Rec) error {
 		if sc.Switch != nil && e == sc.Switch.At {
 			opts = sc.Switch.Opts.Build()
 			ctx = opts.NeatContext()
+			curSpec = sc.Switch.Opts
 		}
 		assign(e)
 		if err := exec.NextEpoch(ctx, e, pop); err != nil {
@@ -103,6 +109,15 @@ func CheckC09(c C09Case, rec *Rec) error {
 	gen := sc.Epochs
 	if sc.Switch != nil && gen == sc.Switch.At {
 		opts = sc.Switch.Opts.Build()
+		ctx = opts.NeatContext()
+		curSpec = sc.Switch.Opts
+	}
+	if c.Step == "D" {
+		cl := curSpec
+		cl.MutateOnlyProb, cl.MateOnlyProb, cl.WeightMutPower, cl.TraitMutationPower = 1, 0, 0, 0
+		cl.MutateRandomTraitProb, cl.MutateLinkTraitProb, cl.MutateNodeTraitProb, cl.MutateLinkWeightsProb = 0, 0, 0, 0
+		cl.MutateToggleEnableProb, cl.MutateGeneReenableProb, cl.MutateAddNodeProb, cl.MutateAddLinkProb, cl.MutateConnectSensors = 0, 0, 0, 0, 0
+		opts = cl.Build()
 		ctx = opts.NeatContext()
 	}
 	if sc.Switch != nil && sc.Switch.At <= gen {
@@ -218,6 +233,8 @@ func CheckC09(c C09Case, rec *Rec) error {
 			rec.Class("babies stolen configured")
 		}
 		return nil
+	case "D":
+		return checkCloneTurnover(exec, ctx, gen, pop, orgs, species, pre, opts, popSize, rec)
 	default:
 		if err := exec.NextEpoch(ctx, gen, pop); err != nil {
 			return fmt.Errorf("NextEpoch returned error: %v", err)
@@ -234,6 +251,89 @@ func CheckC09(c C09Case, rec *Rec) error {
 		}
 		return checkExpectedOffspring(orgs, rec)
 	}
+}
+
+// checkCloneTurnover: a complete turnover under options that make every offspring an exact copy of one organism of its species'
+// parent pool. When no genome of the old generation occurs in two species, every new organism names the species that produced
+// it: each species must have produced exactly its quota, and only from its top floor(survival_thresh*n)+1 members.
+func checkCloneTurnover(exec *genetics.SequentialPopulationEpochExecutor, ctx context.Context, gen int, pop *genetics.Population, orgs []*genetics.Organism,
+	species []*genetics.Species, pre map[*genetics.Organism]orgPre, opts *neat.Options, popSize int, rec *Rec) error {
+	keyOf := func(g *genetics.Genome) string {
+		sp := Snapshot(g)
+		sp.Id = 0
+		return fmt.Sprintf("%+v", sp)
+	}
+	owner := map[string]*genetics.Species{}
+	best := map[string]float64{} // the largest raw fitness among the old organisms that carry this genome
+	ambiguous := false
+	for _, o := range orgs {
+		k := keyOf(o.Genotype)
+		if sp, ok := owner[k]; ok && sp != pre[o].species {
+			ambiguous = true
+		}
+		owner[k] = pre[o].species
+		if f, ok := best[k]; !ok || pre[o].raw > f {
+			best[k] = pre[o].raw
+		}
+	}
+	if err := exec.NextEpoch(ctx, gen, pop); err != nil {
+		return fmt.Errorf("NextEpoch returned error: %v", err)
+	}
+	if ambiguous {
+		rec.Class("clone turnover: one genome in two species (offspring can not be attributed, not judged)")
+		return nil
+	}
+	produced := map[*genetics.Species]int{}
+	total := 0
+	for _, sp := range species {
+		total += sp.ExpectedOffspring
+	}
+	if total != popSize {
+		return fmt.Errorf("the quotas of the old generation's species total %d after the turnover, population size is %d", total, popSize)
+	}
+	// the parent cut-off of every species, by raw fitness (ties admitted); not judged where the adjustment changes the order
+	cut := map[*genetics.Species]float64{}
+	members := map[*genetics.Species][]float64{}
+	judgeCut := map[*genetics.Species]bool{}
+	for _, o := range orgs {
+		members[pre[o].species] = append(members[pre[o].species], pre[o].raw)
+	}
+	for sp, fs := range members {
+		sort.Sort(sort.Reverse(sort.Float64Slice(fs)))
+		k := int(math.Floor(opts.SurvivalThresh*float64(len(fs)) + 1.0))
+		if k > len(fs) {
+			k = len(fs)
+		}
+		cut[sp] = fs[k-1]
+		judgeCut[sp] = fs[len(fs)-1] >= 0 && (fs[len(fs)-1] == 0 || fs[len(fs)-1] > 1e-290)
+		for _, f := range fs {
+			judgeCut[sp] = judgeCut[sp] && (f == 0 || f > 1e-290)
+		}
+	}
+	for i, b := range pop.Organisms {
+		k := keyOf(b.Genotype)
+		sp, ok := owner[k]
+		if !ok {
+			rec.Class("clone turnover: an offspring is not a copy of an old organism (left to C05/C06, not judged)")
+			return nil
+		}
+		produced[sp]++
+		if judgeCut[sp] && best[k] < cut[sp] {
+			return fmt.Errorf("new organism %d is a copy of a member of species %d whose fitness %v is below that of the species' top floor(%v*%d)+1 members (%v): it was not available as a parent",
+				i, sp.Id, best[k], opts.SurvivalThresh, len(members[sp]), cut[sp])
+		}
+	}
+	for _, sp := range species {
+		if produced[sp] != sp.ExpectedOffspring {
+			return fmt.Errorf("species %d has a quota of %d, but %d organisms of the new generation are copies of its members (every offspring is an exact copy of its parent under these options)",
+				sp.Id, sp.ExpectedOffspring, produced[sp])
+		}
+		if sp.ExpectedOffspring == 0 {
+			rec.Class("species with a zero quota did not reproduce")
+		}
+	}
+	rec.Class("clone turnover: offspring attributed to the species that produced them")
+	return nil
 }
 
 // checkExpectedOffspring: expected offspring == adjusted fitness / population mean of the adjusted fitness.
